@@ -90,6 +90,10 @@ type RecCC struct {
 	SCs    []*RecSC
 	// FailNewSubConn makes NewSubConn return an error when set.
 	FailNewSubConn bool
+	// NewSubConnHook, when set, is called inside NewSubConn after the sub-connection was
+	// created and recorded and before NewSubConn returns (it may block: the caller is then
+	// "inside the channel's NewSubConn").
+	NewSubConnHook func(sc *RecSC)
 }
 
 // NewRecCC returns an empty recorder.
@@ -134,7 +138,11 @@ func (c *RecCC) NewSubConn(a []resolver.Address, o balancer.NewSubConnOptions) (
 	sc := &RecSC{ID: len(c.SCs) + 1, CC: c, Addrs: a, Listener: o.StateListener}
 	c.SCs = append(c.SCs, sc)
 	c.events = append(c.events, Event{Kind: "newsc", SC: sc.ID, Addrs: addrStrings(a)})
+	hook := c.NewSubConnHook
 	c.mu.Unlock()
+	if hook != nil {
+		hook(sc)
+	}
 	return sc, nil
 }
 
